@@ -360,6 +360,7 @@ pub fn run_docs(case: &Value, seed: u64) -> Outcome {
         if !seen.insert(text.clone()) { continue; }
         observe_text(&mut o, case, &text, &feats, true);
         let chars: Vec<char> = text.chars().collect();
+        if case["odd"].as_bool() == Some(true) { continue; }   // no reading is claimed for these (C01 / C06 were judged above)
         if junk {
             match guarded("Deb822::from_str", || Deb822::from_str(&text).is_ok()) {
                 Ok(true) => o.v("C03", "reject", "Deb822::from_str", "mismatch", &feats, &text, "document with a line that is neither field, continuation, comment nor blank accepted".into()),
